@@ -12,6 +12,7 @@ package network
 import (
 	"bytes"
 	"net"
+	"sync"
 	"time"
 
 	"github.com/icon-project/goloop/common/log"
@@ -45,7 +46,14 @@ type VerifC33Delivery struct {
 type VerifC33Node struct {
 	p2p       *PeerToPeer
 	logger    log.Logger
+	mtx       sync.Mutex // the callback may be invoked from several goroutines
 	Delivered []VerifC33Delivery
+}
+
+func (n *VerifC33Node) DeliveredCount() int {
+	n.mtx.Lock()
+	defer n.mtx.Unlock()
+	return len(n.Delivered)
 }
 
 type VerifC33Peer struct{ p *Peer }
@@ -60,7 +68,9 @@ func VerifC33NewNode(selfID []byte, cbProtos []uint16, numBucket uint8, lenBucke
 	n.p2p.packetPool = NewPacketPool(numBucket, lenBucket)
 	for _, pi := range cbProtos {
 		n.p2p.setCbFunc(module.ProtocolInfo(pi), func(pkt *Packet, p *Peer) {
+			n.mtx.Lock()
 			n.Delivered = append(n.Delivered, VerifC33Delivery{Hash: pkt.hashOfPacket, Src: pkt.src.Bytes(), PeerID: p.ID().Bytes()})
+			n.mtx.Unlock()
 		}, nil)
 	}
 	return n
@@ -68,11 +78,13 @@ func VerifC33NewNode(selfID []byte, cbProtos []uint16, numBucket uint8, lenBucke
 
 func (n *VerifC33Node) SetSelfRole(role byte) { n.p2p.self.setRole(PeerRoleFlag(role)) }
 
-// NewPeer: a connected peer after the handshake: id, role flags, connection type, protocols.
-func (n *VerifC33Node) NewPeer(id []byte, role byte, connType byte, protos []uint16) *VerifC33Peer {
+// NewPeer: a connected peer after the handshake: id, role flags resolved by this node, role
+// flags the peer announced about itself (recvRole), connection type, protocols.
+func (n *VerifC33Node) NewPeer(id []byte, role byte, recvRole byte, connType byte, protos []uint16) *VerifC33Peer {
 	p := newPeer(&verifC33Conn{}, true, "", n.logger)
 	p.setID(NewPeerID(id))
 	p.setRole(PeerRoleFlag(role))
+	p.setRecvRole(PeerRoleFlag(recvRole))
 	p.setConnType(PeerConnectionType(connType))
 	pis := newProtocolInfos()
 	for _, pi := range protos {
@@ -83,6 +95,45 @@ func (n *VerifC33Node) NewPeer(id []byte, role byte, connType byte, protos []uin
 }
 
 func (p *VerifC33Peer) Closed() bool { return p.p.IsClosed() }
+
+// Roles returns (p.Role(), p.RecvRole()) as the package sees them now.
+func (p *VerifC33Peer) Roles() (byte, byte) { return byte(p.p.Role()), byte(p.p.RecvRole()) }
+
+// SetAllowedRoots replaces the validator list (manager.SetRole(RoleValidator, ...)); connected
+// peers registered with AddToTopology get/lose the root flag through onAllowedPeerIDSetUpdate.
+func (n *VerifC33Node) SetAllowedRoots(ids [][]byte) {
+	l := make([]module.PeerID, len(ids))
+	for i, id := range ids {
+		l[i] = NewPeerID(id)
+	}
+	n.p2p.allowedRoots.ClearAndAdd(l...)
+}
+
+// Handshake: the peer's QueryMessage announcing `claimed` goes through onPacket (handleQuery
+// resolves the role against the allowed sets and stores the claim as recvRole).  The peer must
+// have been created with the control protocol (0x0000) among its protocols.
+func (n *VerifC33Node) Handshake(p *VerifC33Peer, claimed byte) {
+	q := newPacket(p2pProtoControl, p2pProtoQueryReq, n.p2p.encode(&QueryMessage{Role: PeerRoleFlag(claimed)}), p.p.ID())
+	n.p2p.onPacket(q, p.p)
+}
+
+// Prepare / Fire: build the received packet first, hand it to onPacket later (so that several
+// goroutines can be released at the same moment).
+type VerifC33Prepared struct {
+	pkt *Packet
+	p   *Peer
+}
+
+func (n *VerifC33Node) Prepare(p *VerifC33Peer, f VerifC33Packet) (*VerifC33Prepared, error) {
+	pkt, err := verifC33Build(f)
+	if err != nil {
+		return nil, err
+	}
+	pkt.sender = p.p.ID()
+	return &VerifC33Prepared{pkt, p.p}, nil
+}
+func (n *VerifC33Node) Fire(x *VerifC33Prepared) { n.p2p.onPacket(x.pkt, x.p) }
+func (x *VerifC33Prepared) Hash() uint64         { return x.pkt.hashOfPacket }
 
 // AddToTopology registers the peer in the connection-type set (only needed for relaying).
 func (n *VerifC33Node) AddToTopology(p *VerifC33Peer) { n.p2p.m[p.p.ConnType()].Add(p.p) }
@@ -128,9 +179,9 @@ func (n *VerifC33Node) OnPacket(p *VerifC33Peer, f VerifC33Packet) (VerifC33Resu
 		return VerifC33Result{}, err
 	}
 	pkt.sender = p.p.ID()
-	before := len(n.Delivered)
+	before := n.DeliveredCount()
 	n.p2p.onPacket(pkt, p.p)
-	return VerifC33Result{Hash: pkt.hashOfPacket, Delivered: len(n.Delivered) - before, Closed: p.p.IsClosed(),
+	return VerifC33Result{Hash: pkt.hashOfPacket, Delivered: n.DeliveredCount() - before, Closed: p.p.IsClosed(),
 		InPool: n.p2p.packetPool.Contains(pkt)}, nil
 }
 
